@@ -580,6 +580,42 @@ def rule_size_reasked(ctx: Ctx) -> RuleResult:
     return rr
 
 
+def rule_resize_seen_before_filter(ctx: Ctx) -> RuleResult:
+    """The cached screen size is dropped when "window resize" arrives.  The input filter stands between the screen
+    and that decision and may drop or replace events (a filter that swallows everything while the application is
+    busy): whether the event was there is therefore noted *before* the filter is called, and the reset of the cached
+    size depends on that note.  Before fix ed5b507 both loops looked for the event in the filter's output only: a
+    filter that dropped it left every later redraw at the old size."""
+    from ..rules.exc import ExcEngine
+
+    p = ctx.p
+    rr = RuleResult("ORDER", "C12.16", "whether a 'window resize' arrived is noted before the input filter runs, and the cached screen size is dropped on that note", floor=2)
+    for name in ("_update", "_run_screen_event_loop"):
+        fi = p.func(f"{ML}.{name}")
+        cfg = cfg_of(fi)
+        filt = nodes_where(cfg, lambda c: isinstance(c, ast.Call) and isinstance(c.func, ast.Attribute) and c.func.attr == "input_filter")
+        resets = [n for n in cfg.nodes if isinstance(n.ast, ast.Assign) and isinstance(n.ast.value, ast.Constant) and n.ast.value.value is None and any(isinstance(t, ast.Attribute) and t.attr == "screen_size" for t in n.ast.targets)]
+        if not filt or not resets:
+            raise AnalysisError(f"MainLoop.{name}: input_filter call / screen_size reset not found")
+        flags = set()
+        for n in cfg.nodes:
+            if isinstance(n.ast, ast.Assign) and len(n.ast.targets) == 1 and isinstance(n.ast.targets[0], ast.Name) and isinstance(n.ast.value, ast.Compare) and isinstance(n.ast.value.ops[0], ast.In) and isinstance(n.ast.value.left, ast.Constant) and n.ast.value.left.value == "window resize":
+                # noted before the filter: every path from the note to a reset passes... the filter comes after it
+                if all(f in cfg.reachable([n], labels=("n", "T", "F")) for f in filt) and not any(n in cfg.reachable([f], labels=("n", "T", "F")) - set() for f in filt if name == "_update"):
+                    flags.add(n.ast.targets[0].id)
+                elif name != "_update" and all(f in cfg.reachable([n], avoid=resets, labels=("n", "T", "F")) for f in filt):
+                    flags.add(n.ast.targets[0].id)
+        for r in resets:
+            ok = False
+            for t in cfg.nodes:
+                if t.kind == "test" and r not in ExcEngine._reach_without_edge(cfg, t, "T") and any(isinstance(x, ast.Name) and x.id in flags for x in ast.walk(t.ast)):
+                    ok = True
+            rr.inst(f"{name}: {norm(r.ast, 40)}", True, {"function": name, "noted_before_filter": sorted(flags), "reset_depends_on_it": ok})
+            if not ok:
+                rr.add(finding("ORDER", fi, r.ast, f"{name}() drops the cached screen size only if 'window resize' is still in what the input filter returned: a filter that drops or replaces the event (returns [] while busy) leaves screen_size at the old value and every later redraw at the old size", construct=f"{name}: resize looked for after the input filter only"))
+    return rr
+
+
 def _nameprefix(ctx: Ctx) -> RuleResult:
     """process_input() decides by is_mouse_event() whether an event goes to mouse_event() or keypress(): every mouse
     report - also one with modifier words in front - has to be recognised (shared with C05.14)."""
@@ -714,6 +750,7 @@ def run(ctx: Ctx):
         rule_stop_flushed(ctx),
         _redraw_armed(ctx),
         rule_reraise_unchanged(ctx),
+        rule_resize_seen_before_filter(ctx),
     ]
 
 
@@ -722,6 +759,8 @@ from ..mutants import Mut  # noqa: E402
 _M = "urwid/event_loop/main_loop.py"
 _P = "urwid/display/_posix_raw_display.py"
 MUTANTS = [
+    Mut("resize-looked-for-after-filter", _M, "MainLoop._update", "        if resized or \"window resize\" in keys:", "        if keys and \"window resize\" in keys:", "ORDER|event_loop.main_loop.MainLoop._update|_update: resize looked for after the input filter only"),
+    Mut("resize-looked-for-after-filter-sync", _M, "MainLoop._run_screen_event_loop", "            if resized or \"window resize\" in keys:", "            if keys and \"window resize\" in keys:", "ORDER|event_loop.main_loop.MainLoop._run_screen_event_loop|_run_screen_event_loop: resize looked for after the input filter only"),
     Mut("trio-reraise-from-none", "urwid/event_loop/trio_loop.py", "TrioEventLoop._handle_main_loop_exception", "raise exc.with_traceback(exc.__traceback__) from exc.__cause__", "raise exc.with_traceback(exc.__traceback__) from None", "PASS|event_loop.trio_loop.TrioEventLoop._handle_main_loop_exception|re-raise of exc overwrites __cause__"),
     Mut("twin-trio-reraise-plain", "urwid/event_loop/trio_loop.py", "TrioEventLoop._handle_main_loop_exception", "raise exc.with_traceback(exc.__traceback__) from exc.__cause__", "raise exc.with_traceback(exc.__traceback__)", twin=True),
     Mut("stop-disables-after-the-flush", _P, "urwid.display._posix_raw_display.Screen._stop", "        if self.bracketed_paste_mode:\n            self.write(escape.DISABLE_BRACKETED_PASTE_MODE)\n\n        if self.focus_reporting:\n            self.write(escape.DISABLE_FOCUS_REPORTING)\n\n", "", "PASS|display._posix_raw_display.Screen._stop|write not flushed", also=[("        self._stop_mouse_restore_buffer()\n", "        self._stop_mouse_restore_buffer()\n        if self.focus_reporting:\n            self.write(escape.DISABLE_FOCUS_REPORTING)\n        if self.bracketed_paste_mode:\n            self.write(escape.DISABLE_BRACKETED_PASTE_MODE)\n")]),
